@@ -967,6 +967,27 @@ func main() {
 			runtime.GOMAXPROCS(inherited)
 		}
 
+		// Another goroutine flips GOMAXPROCS while the calls run (toggle.go). Last group, alone; each
+		// toggler restores the inherited value when it stops.
+		var flips atomic.Int64
+		nToggle := 0
+		for si, vals := range toggleSets {
+			tcs := toggleCases(r.Rand("toggle", si), vals, inherited, r.Scale(500, 6000))
+			nToggle += len(tcs)
+			var stop atomic.Bool
+			tdone := make(chan struct{})
+			go toggler(vals, &stop, &flips, tdone, inherited)
+			r.Cases(fmt.Sprintf("toggle%d", si), len(tcs), 1, func(c *vkit.Case) {
+				if r.NViolations() >= 5 {
+					return
+				}
+				kept = append(kept, executeToggle(c, tcs[c.Index]))
+			})
+			stop.Store(true)
+			<-tdone
+		}
+		r.Count("toggle", "GOMAXPROCS flips while the group ran", int(flips.Load()))
+
 		// Final sweep: once no goroutine of the parallel package is left (dump-based, so the counters
 		// below are final), no run may have seen an invocation start or finish after its return.
 		left := vkit.WaitNoGoroutine(parallelGoroutine, time.Second, 100*time.Millisecond)
@@ -1017,6 +1038,8 @@ func main() {
 			r.Floor("runs in which the caller's ctx ended while every index had been invoked and succeeded", r.Table("runs", "caller's ctx ended while every index had been invoked and succeeded"), int64(r.Scale(500, 2000)))
 			r.Floor("runs in which the last call to finish ends the caller's ctx", r.Table("finish runs", "last call to finish ends the caller's ctx"), int64(r.Scale(600, 2400)))
 			r.Floor("runs in which an outside goroutine cancels around the end of the last call", r.Table("finish runs", "outside goroutine cancels around the end of the last call"), int64(r.Scale(2400, 40000)))
+			r.Floor("runs while GOMAXPROCS was being flipped by another goroutine", r.Table("runs", "while GOMAXPROCS was being flipped by another goroutine"), int64(nToggle))
+			r.Floor("GOMAXPROCS flips while the toggle group ran", r.Table("toggle", "GOMAXPROCS flips while the group ran"), int64(nToggle))
 			r.Floor("product-scale runs", r.Table("runs", "product scale (parallelism x n >= 2^32)"), int64(len(scale)))
 			r.Floor("runs after GOMAXPROCS was changed in-process", r.Table("runs", "after GOMAXPROCS was changed in-process"), int64(len(procs)))
 		}
